@@ -36,6 +36,8 @@ def kf_src(name, cond):
 
 # caller-owned frames (C19): any in-place mutation of these is recorded
 MUTATIONS: list = []
+# set when an order_rows-style sort (not a window sort) met rows tied on all sort keys: their relative order is then not defined
+ORDER_SORT_TIES = [False]
 
 
 # --------------------------------------------------------------------------------------------------------------- vectors
@@ -1264,6 +1266,8 @@ class DataFrame:
             r0 = _cmp_rows(cols, i, cols, j, asc, flags)
             if r0 == 0 and i != j:
                 flags["ties"] = True
+                if not window_sort:
+                    ORDER_SORT_TIES[0] = True
                 if window_sort:
                     # a tie on partition + order columns: the window order is not total (outside C01/C18/C27); stop exploring orders
                     raise OutsideClaim("window order is not total (tie)")
